@@ -160,6 +160,9 @@ type c10Run struct {
 	record bool
 	states []c10State
 	stepsAt []uint64
+	// kill runs: the in-memory table right before each database statement since the last
+	// quiescent point - the versions a statement of the operation in flight may have persisted
+	inflight []c10State
 }
 
 // settle runs the scheduler; returns false when the kill point was reached.
@@ -174,10 +177,18 @@ func (c *c10Run) settle() bool {
 		}
 		return true
 	}
-	if s.Run(func() bool { return s.Step >= c.kill }, true) == simrt.Stopped {
+	if s.OnSQL == nil {
+		s.OnSQL = func() {
+			if c.w.TS != nil && len(c.inflight) < 256 {
+				c.inflight = append(c.inflight, c10Snap(c.w))
+			}
+		}
+	}
+	if s.RunToStep(c.kill, true) == simrt.Stopped {
 		c.killed = true
 		return false
 	}
+	c.inflight = c.inflight[:0]
 	return true
 }
 
@@ -371,7 +382,7 @@ func (c10) Exec(p *Plan, dir string) *Result {
 	res.Digest ^= w0.Sim.Digest()
 	// a clean restart (no crash) must restore the final state exactly
 	w0.Crash()
-	c10Restart(w0, res, states[len(states)-1:], "clean-restart", -1, 0)
+	c10Restart(w0, res, states[len(states)-1:], "clean-restart", -1, 0, nil)
 	w0.Close()
 	res.FP("hist", len(p.Actions), total/200)
 	res.Probe("histories")
@@ -448,13 +459,25 @@ func (c10) Exec(p *Plan, dir string) *Result {
 		allowed := states[lo : hi+1]
 		res.Probe("kill-points")
 		res.FP("kill", run.acts < len(p.Actions), p.Actions[min(run.acts, len(p.Actions)-1)].Kind)
+		// the in-memory table at the instant of the kill: an in-flight operation may have changed
+		// some fields already (and persisted them) and not yet others
+		atKill := c10Snap(w)
+		if os.Getenv("VERIF_DEBUG") != "" {
+			fmt.Fprintf(os.Stderr, "C10 kill k=%d action=%d (%s) lo=%d hi=%d stepsAt=%v\n", k, run.acts, p.Actions[min(run.acts, len(p.Actions)-1)].Kind, lo, hi, stepsAt)
+			for _, st := range append(append(append([]c10State{}, allowed...), run.inflight...), atKill) {
+				for id, a := range st.Agents {
+					fmt.Fprintf(os.Stderr, "   %s parent=%q meta=%q\n", id, a.Parent, a.Meta[len(a.Meta)-40:])
+				}
+				fmt.Fprintln(os.Stderr, "   --")
+			}
+		}
 		w.Crash()
 		second := uint64(0)
 		if ki%3 == 2 {
 			second = 1 + (k*2654435761)%400 // double crash: killed again while restoring
 			res.Probe("fault:double-crash")
 		}
-		c10Restart(w, res, allowed, "crash", run.acts, second)
+		c10Restart(w, res, allowed, "crash", run.acts, second, append(run.inflight, atKill))
 		res.Probe("fault:crash")
 		w.Close()
 		os.RemoveAll(kd)
@@ -473,7 +496,14 @@ func min(a, b int) int {
 
 // c10Restart boots a new process image on the surviving files and compares what it restored (and
 // what a newly connecting operator is told) with the allowed reference states.
-func c10Restart(w *world.World, res *Result, allowed []c10State, why string, act int, secondKill uint64) {
+//
+// allowed are the quiescent states before and after the operation in flight; atKill (nil for a clean
+// restart) are the in-memory tables right before each database statement of that operation and at
+// the instant of the kill. An agent that is live in every allowed
+// state must be restored; a restored row must, field by field, carry a value the session had in one
+// of those states (an operation in flight persists its changes in more than one statement, so its
+// row may be partly old and partly new, but never hold a value the session never had).
+func c10Restart(w *world.World, res *Result, allowed []c10State, why string, act int, secondKill uint64, atKill []c10State) {
 	if secondKill > 0 {
 		w.BootKillStep = secondKill
 		if err := w.Boot(); err == nil && w.BootKilled {
@@ -530,6 +560,16 @@ func c10Restart(w *world.World, res *Result, allowed []c10State, why string, act
 				okRow = true
 			}
 		}
+		if atKill != nil {
+			for _, st := range atKill {
+				if _, ok := st.Agents[id]; ok {
+					mayExist = true
+				}
+			}
+			if have && !okRow && mayExist {
+				okRow = c10FieldwiseOK(g, allowed, atKill, id)
+			}
+		}
 		switch {
 		case have && !mayExist:
 			res.Violate("C10", "agent-restored-that-must-not-be", why, fmt.Sprintf("after a %s agent %s is restored although it was dead or never acknowledged", why, id), w.Sim)
@@ -543,6 +583,9 @@ func c10Restart(w *world.World, res *Result, allowed []c10State, why string, act
 			return
 		case have && mayExist && !okRow:
 			field := c10Field(g, allowed, id)
+			if atKill != nil {
+				field = c10BadField(g, allowed, atKill, id)
+			}
 			res.Violate("C10", "agent-differs", why+":"+field, fmt.Sprintf("after a %s agent %s is restored with a different %s: %s", why, id, field, c10Show(g, allowed, id, field)), w.Sim)
 			return
 		}
@@ -633,6 +676,82 @@ func c10Restart(w *world.World, res *Result, allowed []c10State, why string, act
 func mustB64(s string) []byte {
 	b, _ := base64.StdEncoding.DecodeString(s)
 	return b
+}
+
+// c10Versions lists the versions of the session's record an in-flight operation may leave behind.
+func c10Versions(allowed []c10State, atKill []c10State, id string) []c10Agent {
+	var vs []c10Agent
+	for _, s := range allowed {
+		if a, ok := s.Agents[id]; ok {
+			vs = append(vs, a)
+		}
+	}
+	for _, s := range atKill {
+		if a, ok := s.Agents[id]; ok {
+			vs = append(vs, a)
+		}
+	}
+	return vs
+}
+
+// c10BadField names the first field of the restored row that holds a value the session never had.
+func c10BadField(g c10Agent, allowed []c10State, atKill []c10State, id string) string {
+	vs := c10Versions(allowed, atKill, id)
+	in := func(get func(c10Agent) string) bool {
+		for _, v := range vs {
+			if get(v) == get(g) {
+				return true
+			}
+		}
+		return false
+	}
+	if !in(func(a c10Agent) string { return a.Key + "/" + a.IV }) {
+		return "key-iv"
+	}
+	if !in(func(a c10Agent) string { return a.Parent }) {
+		// a parent that the operation in flight takes out of the live set (marked dead, exited)
+		// may already be gone while this row is still the old one: pairs are pairs of live sessions
+		gone := false
+		if g.Parent == "" {
+			// ... and so may the link of a session that the operation in flight itself retires
+			for _, st := range append(append([]c10State{}, allowed...), atKill...) {
+				if _, alive := st.Agents[id]; !alive {
+					gone = true
+				}
+			}
+			for _, v := range vs {
+				if v.Parent == "" {
+					continue
+				}
+				for _, st := range append(append([]c10State{}, allowed...), atKill...) {
+					if _, alive := st.Agents[v.Parent]; !alive {
+						gone = true
+					}
+				}
+			}
+		}
+		if !gone {
+			return "parent"
+		}
+	}
+	gm := strings.Split(g.Meta, "\x1f")
+	for i := range gm {
+		i := i
+		if !in(func(a c10Agent) string {
+			m := strings.Split(a.Meta, "\x1f")
+			if i < len(m) {
+				return m[i]
+			}
+			return "\x00missing"
+		}) {
+			return c10MetaNames[i]
+		}
+	}
+	return ""
+}
+
+func c10FieldwiseOK(g c10Agent, allowed []c10State, atKill []c10State, id string) bool {
+	return c10BadField(g, allowed, atKill, id) == ""
 }
 
 var c10MetaNames = []string{"hostname", "username", "domain", "external-ip", "internal-ip", "process-name", "pid", "tid", "ppid", "arch", "elevated", "os-version", "os-arch", "sleep", "jitter", "kill-date", "working-hours", "base-address", "first-call-in", "last-call-in"}
